@@ -4,9 +4,11 @@ CONSTANTS
   Indexes <- IndexNames
   Aliases <- AliasNames
   Exprs <- ExprsAll
+  DelExprs <- DelExprsAll
   TermsOf <- Terms
   Matches <- Match
   IsWild <- Wild
+  GenMode = "plain"
   MaxOps = 6
   FixDelete = FALSE
   FixRegistry = FALSE
